@@ -7,6 +7,7 @@ import MagpyVerif.Model.CylSegWrap
 import MagpyVerif.Model.CylSegSpecial
 import MagpyVerif.Gen.Const
 import MagpyVerif.Model.InOut
+import MagpyVerif.Model.DipoleSing
 import Driver.Parse
 
 namespace Driver.KernFam
@@ -65,6 +66,12 @@ def out (v : V3 Float) : String := s!"{v.x.toBits} {v.y.toBits} {v.z.toBits}"
 def run : P String := do
   match (← tok) with
   | "dipole" => do let f ← field; let m ← v3; let x ← v3; pure (out (bhjmDipole f m x))
+  | "dipole0" => do
+      -- BHJM_dipole with the observer AT the dipole position (the `r == 0` row): +inf / -inf / 0 per component
+      let f ← field; let m ← v3
+      let s := bhjmDipoleAtPosition f m
+      let fl (t : Sing) : Float := match t with | .pinf => 1.0 / 0.0 | .ninf => -1.0 / 0.0 | .zero => 0.0
+      pure (out ⟨fl s.x, fl s.y, fl s.z⟩)
   | "sphere" => do let f ← field; let d ← flt; let p ← v3; let x ← v3; pure (out (bhjmSphere f d p x))
   | "segment" => do let c ← flt; let p1 ← v3; let p2 ← v3; let po ← v3; pure (out (segmentH c p1 p2 po))
   | "cuboid" => do let f ← field; let d ← v3; let p ← v3; let x ← v3; pure (out (bhjmCuboid f d p x))
